@@ -64,9 +64,13 @@ def select_harnesses(plan, tier, substr):
     return out
 
 
+HDIR_OVERRIDE = [None]
+
+
 def harness_source_info(name):
-    """unwind bound and source file of a harness, read from the harness sources"""
-    hdir = os.path.join(VERIF, "harness", "incrate")
+    """unwind bound and source file of a harness, read from the harness sources (the scratch copy of
+    the harness directory once it exists: it also holds generated files)"""
+    hdir = HDIR_OVERRIDE[0] or os.path.join(VERIF, "harness", "incrate")
     for fn in sorted(os.listdir(hdir)):
         if not fn.endswith(".rs"):
             continue
@@ -154,10 +158,11 @@ def check_hooks(plan, repo, harnesses):
     for h in harnesses:
         info = harness_source_info(h["name"])
         if info["file"] is None:
-            raise Inconclusive("harness %s not found in harness/incrate" % h["name"])
-        if info["file"] not in mounts:
-            raise Inconclusive("harness file %s is not mounted by a cfg(kani) hook in the source tree" % info["file"])
-        h["_path"] = (mounts[info["file"]] + "::" if mounts[info["file"]] else "") + h["name"]
+            raise Inconclusive("harness %s not found in the harness directory" % h["name"])
+        mfile = h.get("mount", info["file"])
+        if mfile not in mounts:
+            raise Inconclusive("harness file %s is not mounted by a cfg(kani) hook in the source tree" % mfile)
+        h["_path"] = (mounts[mfile] + "::" if mounts[mfile] else "") + h["name"]
 
 
 class Inconclusive(Exception):
@@ -571,7 +576,7 @@ def main():
     harnesses = select_harnesses(plan, args.tier, only)
     if args.replay:
         harnesses = [h for h in harnesses if h["name"] == only]
-    if not harnesses:
+    if not harnesses and not plan.get("dynamic"):
         log("no harness selected")
         return 3
     cap = QUICK_CAP_S if args.tier == "quick" else THOROUGH_CAP_S
@@ -594,7 +599,7 @@ def main():
         shutil.rmtree(logdir, ignore_errors=True)
         os.makedirs(logdir)
         transforms = apply_transforms(plan, repo, hdir)
-        check_hooks(plan, repo, harnesses)
+        HDIR_OVERRIDE[0] = hdir
         gdir = os.path.join(VERIF, "harness", "gen")
         for g in sorted(os.listdir(gdir)):
             if g.startswith("gen_") and g.endswith(".py"):
@@ -602,6 +607,15 @@ def main():
                     subprocess.check_call([sys.executable, os.path.join(gdir, g), repo, hdir, args.tier, str(seed), pid])
                 except subprocess.CalledProcessError as e:
                     raise Inconclusive("generator %s failed: %s" % (g, e))
+        dyn = os.path.join(hdir, pid + "_harnesses.json")
+        if os.path.exists(dyn):
+            # harness list generated from the repository's own data files on this run
+            extra = json.load(open(dyn))
+            plan["harnesses"] = plan.get("harnesses", []) + extra
+            harnesses = select_harnesses(plan, args.tier, only)
+            if not harnesses:
+                raise Inconclusive("no harness selected after generation")
+        check_hooks(plan, repo, harnesses)
         pkgs = []
         for h in harnesses:
             if h["package"] not in pkgs:
